@@ -12,15 +12,11 @@ open Matrix
 
 /-- the blocks of scalar expressions of the equations, in declaration order -/
 def LModel.blocks {α} (m : LModel α) : Except Err (List (List (SEx α))) :=
-  m.eqs.mapM fun (e, target) => do
-    let n ← e.size m.L
-    (List.range (max n target)).mapM fun i => e.lower m.L (if n = 1 then 0 else i)
+  m.eqs.mapM fun (e, target) => LModel.eqBlock m.L e target
 
 theorem LModel.residual_eq_flatten {α} (m : LModel α) : m.residual = m.blocks.map List.flatten := by
   simp only [LModel.residual, LModel.blocks]
-  cases h : List.mapM (fun x : Ex α × Nat => do
-      let n ← x.1.size m.L
-      (List.range (max n x.2)).mapM fun i => x.1.lower m.L (if n = 1 then 0 else i)) m.eqs with
+  cases h : List.mapM (fun x : Ex α × Nat => LModel.eqBlock m.L x.1 x.2) m.eqs with
   | error e => simp [bind, Except.bind, Except.map, h]
   | ok v => simp [bind, Except.bind, Except.map, h, pure, Except.pure]
 
